@@ -17,6 +17,11 @@ Templates(ds, i) ==
      [k |-> "record", fs |-> <<F("a", Prim("u32")), F("c", Prim("string"))>>],
      [k |-> "variant", cs |-> <<F("x", Prim("u32")), F("y", NoT)>>],
      [k |-> "variant", cs |-> <<F("y", NoT), F("x", Prim("u32"))>>],
+     \* a type whose member list is a strict prefix of another one's is a different type
+     [k |-> "variant", cs |-> <<F("x", Prim("u32")), F("y", NoT), F("z", Prim("string"))>>],
+     [k |-> "record", fs |-> <<F("a", Prim("u32"))>>],
+     [k |-> "enum", ns |-> <<"p">>], [k |-> "flags", ns |-> <<"p">>],
+     [k |-> "tuple", ts |-> <<Prim("u32")>>], [k |-> "tuple", ts |-> <<Prim("u32"), Prim("string")>>],
      [k |-> "enum", ns |-> <<"p", "q">>], [k |-> "enum", ns |-> <<"q", "p">>], [k |-> "flags", ns |-> <<"p", "q">>],
      [k |-> "resource"],
      [k |-> "list", t |-> Prim("u8")]}
